@@ -24,10 +24,15 @@ type Shape struct {
 	Spork int `json:"spork"` // 0: no SporkConfig, 1: empty list, 2: two sporks (one inactive unknown id, one active implemented id)
 	Del   int `json:"del"`   // delegations
 	Leg   int `json:"leg"`   // legacy pillar entries
+	TS0   int `json:"ts0,omitempty"` // 1: the configuration names no genesis time (GenesisTimestampSec 0 = the field omitted from the file)
 }
 
 func (s Shape) Name() string {
-	return fmt.Sprintf("a%dt%dp%df%ds%dk%dd%dl%d", s.Acc, s.Tok, s.Pil, s.Fus, s.Swap, s.Spork, s.Del, s.Leg)
+	n := fmt.Sprintf("a%dt%dp%df%ds%dk%dd%dl%d", s.Acc, s.Tok, s.Pil, s.Fus, s.Swap, s.Spork, s.Del, s.Leg)
+	if s.TS0 != 0 {
+		n += "z"
+	}
+	return n
 }
 
 const genesisTimestamp = 1000000000
@@ -164,6 +169,9 @@ func build(s Shape) *genesis.GenesisConfig {
 			Owner: userAddr(k % s.Acc), TokenName: fmt.Sprintf("C20 Token %d", k), TokenSymbol: fmt.Sprintf("CT%d", k), TokenDomain: "c20.test",
 			TotalSupply: sum(extraZts(k)), MaxSupply: new(big.Int).Set(max), Decimals: uint8(8 - k), IsMintable: k%2 == 0, IsBurnable: k%2 == 1, IsUtility: false, TokenStandard: extraZts(k),
 		})
+	}
+	if s.TS0 != 0 {
+		cfg.GenesisTimestampSec = 0
 	}
 	return cfg
 }
